@@ -183,8 +183,36 @@ func gatherCounts(reg *prometheus.Registry) (string, int) {
 // quiesce waits until every goroutine started by the case has ended (deterministic signal), or – when goroutines
 // are known to stay (unsettled messages) – until the registry shows at least `expect` samples and stays unchanged
 // for a grace period.  Returns how it ended.
-// base0 is the number of goroutines before the first case; cases run one after the other and each returns to it.
+// base0 is the number of goroutines before the first case; cases run one after the other and each returns to it
+// (plus the goroutines of calls the watchdog had to give up on: they stay for ever).
 var base0 int
+
+// guard runs one call of the code under test under a watchdog: a call that does not return within the bound is
+// observed as "stuck" (its goroutine stays behind, the scenario goes on or is abandoned, the process never hangs).
+// The bound is 5 s (against microseconds); after three expiries in one run it is cut to 1 s.
+func guard(call func() string) string {
+	done := make(chan string, 1)
+	go func() {
+		defer func() {
+			if v := recover(); v != nil {
+				done <- wh.PanicText(v)
+			}
+		}()
+		done <- call()
+	}()
+	bound := 5 * time.Second
+	if atomic.LoadInt32(&expiries) >= 3 {
+		bound = time.Second
+	}
+	select {
+	case r := <-done:
+		return r
+	case <-time.After(bound):
+		expired()
+		base0++ // the stuck call's goroutine
+		return "stuck"
+	}
+}
 
 var quiesceStats = map[string]int{}
 
